@@ -15,7 +15,10 @@ def prepare(d, strategy, dest_exists):
         shutil.copyfile(os.path.join(REPO, "functest/packages/dummy.msi"), os.path.join(d, "in.bin"))
     else:
         open(os.path.join(d, "in.bin"), "wb").write(bytes(range(256)) * 20)
-    if dest_exists:
+    if dest_exists == 2:      # destination is a symbolic link to a regular file
+        open(os.path.join(d, "linked-target"), "wb").write(OLD)
+        os.symlink("linked-target", os.path.join(d, "out.bin"))
+    elif dest_exists:
         open(os.path.join(d, "out.bin"), "wb").write(OLD)
     return open(os.path.join(d, "in.bin"), "rb").read()
 
@@ -24,7 +27,10 @@ def snapshot(d):
     for n in sorted(os.listdir(d)):
         if n.endswith(".trace"):
             continue
-        out[n] = open(os.path.join(d, n), "rb").read()
+        try:
+            out[n] = open(os.path.join(d, n), "rb").read()      # follows symbolic links: what a reader of the path sees
+        except OSError:
+            pass
     return out
 
 def strace_run(d, strategy, fail=False, kill_at=None):
@@ -107,7 +113,7 @@ def run(ctx, replay=None):
     refs = {}
     # reference (uninterrupted) runs, success and handled-error variants
     for s in STRATEGIES:
-        for de in (True, False):
+        for de in (1, 0, 2):
             d = os.path.join(base, "ref_%s_%d" % (s, de))
             inp = prepare(d, s, de)
             rc, lines, err = strace_run(d, s)
@@ -130,7 +136,7 @@ def run(ctx, replay=None):
             if len(samples) < 3:
                 samples.append({"strategy": s, "dest_exists": de, "output_phase_ops": kinds, "main_thread_syscalls": len(calls), "output_phase": [c[:70] for c in calls if "out.bin" in c][:8]})
         if s in FAILABLE:
-            for de in (True, False):
+            for de in (1, 0, 2):
                 d = os.path.join(base, "err_%s_%d" % (s, de))
                 inp = prepare(d, s, de)
                 rc, lines, err = strace_run(d, s, fail=True)
@@ -191,7 +197,7 @@ def run(ctx, replay=None):
             if dest not in (old, new):
                 what = "missing" if dest is None else "torn (%d bytes)" % len(dest)
                 ctx.violation("C13:spec:crash:%s" % ("dest-missing" if dest is None else "dest-torn"),
-                              "%s, destination %s: killed at %s #%d (%s): destination is %s" % (s, "present" if de else "absent", k[0], k[1], killed_at[:80], what),
+                              "%s, destination %s: killed at %s #%d (%s): destination is %s" % (s, ["absent", "present", "a symlink"][int(de)], k[0], k[1], killed_at[:80], what),
                               {"strategy": s, "dest_exists": de, "kill_at": k, "killed_at": killed_at})
             if not input_ok:
                 ctx.violation("C13:spec:input-modified", "input modified (%s, kill at %s)" % (s, k), {"strategy": s, "dest_exists": de, "kill_at": k})
@@ -200,6 +206,6 @@ def run(ctx, replay=None):
                               "harness: drv c13op runs one output phase of the real code under strace; SIGKILL injected at syscall entry (strace -e inject=...:signal=SIGKILL:when=k)",
                               "POSIX rename atomicity (the one assumed primitive); durability across power loss (fsync) is outside the property and the model"], FP)
     cov.update({"evaluations": evaluations, "distinct_nontrivial": len(covered),
-                "rule": "5 output strategies (WriteFile, whole-file Apply, patch-by-rewrite, MSI copy-then-edit, PGP) x destination present/absent; SIGKILL at each traced system call index around and inside the output phase (every index in thorough); distinct = (strategy, destination, ops completed, interrupted syscall) actually killed",
+                "rule": "5 output strategies (WriteFile, whole-file Apply, patch-by-rewrite, MSI copy-then-edit, PGP) x destination present / absent / symbolic link to a regular file; SIGKILL at each traced system call index around and inside the output phase (every index in thorough); distinct = (strategy, destination, ops completed, interrupted syscall) actually killed",
                 "samples": samples, "kill_points": kill_points, "exhaustive": ctx.tier == "thorough"})
     return ctx.finish("proof", cov, ["POSIX rename atomicity", "strace per-thread syscall counting on the locked main thread"])
